@@ -1,4 +1,5 @@
 import Tup.Lemmas.AllocFrame
+import Tup.Lemmas.DbMerge
 import Tup.Props.C01
 /-!
   C02 — ID assignments are stable and recycled only least-recently-used first.
@@ -306,11 +307,76 @@ theorem cleanup_drops_oldest_prefix {cfg : Cfg} {db db' : Db} {s : Space} {u : S
   · intro id hid; rw [ids_setIds_same, lookup_eraseAll]; simp [hid]
   · intro id hid; rw [ids_setIds_same, lookup_eraseAll]; simp [hid]
 
-/-
-  TODO (statements fixed in DESIGN.md Appendix A.2, not proved yet; the model functions they are about
-  exist and are exercised by K/F):
-  * `getAll_merged` (`get_all(None, …)`: the heap merge of the five per-space listings is sorted and a
-    permutation of their concatenation), `count(None, …)` = sum of the five counts (definitional).
--/
+/-! ### `get_all(None, …)` / `count(None, …)`: all five spaces at once
+
+  `get_all(None, subspace)` runs the per-space statement five times and merges the answers with
+  `heapq.merge(*lists, key=atime, reverse=True)` (`mergeDesc`: repeatedly the head with the largest key,
+  the earliest list winning ties — `Lemmas/DbMerge.lean`). -/
+
+/-- **Merged listing, nothing lost or duplicated.** `get_all(None, subspace)` is a permutation of the
+    concatenation of the five per-space listings … -/
+theorem getAll_merged_perm (db : Db) (u : Sub) :
+    (getAllMerged db u).Perm (Space.all.map fun s => getAllSpace db s u).flatten :=
+  DbMerge.mergeDesc_perm _
+
+/-- … hence a permutation of the rows the five `SELECT … WHERE (id & mask) BETWEEN …` statements match: every
+    such row is reported exactly as often as it is in the tables (once, keys being unique). -/
+theorem getAll_merged_perm_rows (db : Db) (u : Sub) :
+    (getAllMerged db u).Perm (Space.all.map fun s => (db.ids s).inSub s u).flatten := by
+  refine (getAll_merged_perm db u).trans ?_
+  simp only [Space.all, List.map_cons, List.map_nil, List.flatten_cons, List.flatten_nil, List.append_nil]
+  exact (getAll_perm _ u).append ((getAll_perm _ u).append ((getAll_perm _ u).append
+    ((getAll_perm _ u).append (getAll_perm _ u))))
+
+/-- On a reachable database the merged listing reports exactly the live assignments of the subspace over
+    the five spaces. -/
+theorem getAll_merged_mem_live {cfg : Cfg} {db : Db} (hr : Reachable cfg db) {u : Sub} (hu : u.valid = true)
+    (r : Row) : r ∈ getAllMerged db u ↔ ∃ s ∈ Space.all, Live db s u r := by
+  have hinv := C01.reachable_inv hr
+  rw [(getAll_merged_perm_rows db u).mem_iff, List.mem_flatten]
+  constructor
+  · rintro ⟨l, hl, hrl⟩
+    obtain ⟨s, hs, rfl⟩ := List.mem_map.1 hl
+    exact ⟨s, hs, (live_iff_inSub hinv hs hu r).2 hrl⟩
+  · rintro ⟨s, hs, hl⟩
+    exact ⟨_, List.mem_map.2 ⟨s, hs, rfl⟩, (live_iff_inSub hinv hs hu r).1 hl⟩
+
+/-- **Merged listing, most recent first.** The heap merge of lists that are each sorted by `atime`
+    descending is sorted by `atime` descending … -/
+theorem getAll_merged_sorted_of_sorted (db : Db) (u : Sub)
+    (hsorted : ∀ s ∈ Space.all, (getAllSpace db s u).Pairwise (fun a b => a.atime ≥ b.atime)) :
+    (getAllMerged db u).Pairwise (fun a b => a.atime ≥ b.atime) := by
+  unfold getAllMerged
+  apply DbMerge.mergeDesc_sorted
+  intro l hl
+  obtain ⟨s, hs, rfl⟩ := List.mem_map.1 hl
+  exact hsorted s hs
+
+/-- … and the five per-space listings are (`getAll_sorted_desc_perm_live`), so `get_all(None, subspace)` is
+    sorted most recent first. -/
+theorem getAll_merged_sorted {cfg : Cfg} {db : Db} (hr : Reachable cfg db) {u : Sub} (hu : u.valid = true) :
+    (getAllMerged db u).Pairwise (fun a b => a.atime ≥ b.atime) :=
+  getAll_merged_sorted_of_sorted db u fun _ hs => (getAll_sorted_desc_perm_live hr hs hu).2
+
+/-- **Counting over all spaces.** `count(None, subspace)` (the sum of the five per-space `COUNT(*)`) is the
+    length of `get_all(None, subspace)`. -/
+theorem count_none_eq_length (db : Db) (u : Sub) : count db none u = (getAll db none u).length := by
+  simp only [count, getAll]
+  rw [(getAll_merged_perm_rows db u).length_eq, List.length_flatten, List.map_map]
+  rfl
+
+/-- the same for one space: `count(space, subspace)` is the length of `get_all(space, subspace)` -/
+theorem count_some_eq_length (db : Db) (s : Space) (u : Sub) :
+    count db (some s) u = (getAll db (some s) u).length := by
+  simp only [count, getAll, countSpace]
+  exact (getAll_perm s u).length_eq.symm
+
+/-- non-vacuity of the merge: five sorted listings with ties on `atime` across lists — the earlier list
+    (`all_values()` order) wins a tie, as `heapq.merge` does; an unsorted input is *not* repaired -/
+example :
+    mergeDesc [[⟨1, "a", 5⟩], [⟨2, "b", 7⟩, ⟨3, "c", 5⟩], [], [⟨4, "d", 6⟩, ⟨5, "e", 5⟩], [⟨6, "f", 9⟩]]
+      = [⟨6, "f", 9⟩, ⟨2, "b", 7⟩, ⟨4, "d", 6⟩, ⟨1, "a", 5⟩, ⟨3, "c", 5⟩, ⟨5, "e", 5⟩] ∧
+    mergeDesc [[⟨1, "a", 5⟩, ⟨2, "b", 7⟩], [⟨3, "c", 6⟩]] = [⟨3, "c", 6⟩, ⟨1, "a", 5⟩, ⟨2, "b", 7⟩] := by
+  decide
 
 end Tup.C02
